@@ -48,7 +48,9 @@ def run_chunk(pid, chunk, hashseed, extra, timeout):
                                 env=worker_env(hashseed, extra), cwd=ROOT)
         timedout = False
         try:
-            so, se = proc.communicate(inp, timeout=timeout * len(pending) + 60)
+            # wall-clock watchdog only (its firing is INCONCLUSIVE, never a verdict): stretched on an oversubscribed machine
+            scale = max(1.0, 2.0 * os.getloadavg()[0] / (os.cpu_count() or 1))
+            so, se = proc.communicate(inp, timeout=timeout * len(pending) * scale + 60)
         except subprocess.TimeoutExpired:
             proc.kill()
             so, se = proc.communicate()
@@ -129,7 +131,7 @@ def main(pid, tier, seed, replay=None, only=None):
         cases = mod.cases(tier, seed)
         if only is not None:
             cases = [cases[i] for i in only]
-    timeout = getattr(mod, 'CASE_TIMEOUT', 300)
+    timeout = getattr(mod, 'CASE_TIMEOUT', 600)
     # group by (hashseed, env)
     groups = {}
     for idx, c in enumerate(cases):
